@@ -664,6 +664,85 @@ fn e6_binding_arms(out: &mut Vec<Edge>, tier: Tier) {
 }
 
 // ---------------------------------------------------------------------------------------------
+// E6b: every subset of the patterns of a finite option/result type as arms (one pattern per arm),
+// without and with a default arm; accepted programs are run on EVERY value of the type
+
+fn e6b_pattern_subsets(out: &mut Vec<Edge>) {
+    let unit = Value::Unit;
+    let b = Value::Bool;
+    let some = |v: Value| Value::Option(Some(Box::new(v)));
+    let ok = |v: Value| Value::Result(Ok(Box::new(v)));
+    let err = |v: Value| Value::Result(Err(Box::new(v)));
+    let en = |k: i64| Value::Enum(ident!("E"), k);
+    let ens = || vec![en(0), en(1), en(2)];
+    let bools = || vec![b(true), b(false)];
+    // (type, binding patterns, literal patterns, all values)
+    type Row = (&'static str, Vec<(&'static str, &'static str)>, Vec<&'static str>, Vec<Value>);
+    let rows: Vec<Row> = vec![
+        ("option[bool]", vec![("Some(x)", "x")], vec!["Some(true)", "Some(false)", "None"], [vec![Value::Option(None)], bools().into_iter().map(some).collect()].concat()),
+        ("option[enum E]", vec![("Some(x)", "x")], vec!["Some(E::A)", "Some(E::B)", "Some(E::C)", "None"], [vec![Value::Option(None)], ens().into_iter().map(some).collect()].concat()),
+        ("option[unit]", vec![("Some(x)", "x")], vec!["Some(Unit)", "None"], vec![Value::Option(None), some(unit.clone())]),
+        ("result[unit, unit]", vec![("Ok(x)", "x"), ("Err(e)", "e")], vec!["Ok(Unit)", "Err(Unit)"], vec![ok(unit.clone()), err(unit.clone())]),
+        ("result[unit, enum E]", vec![("Ok(x)", "x"), ("Err(e)", "e")], vec!["Ok(Unit)", "Err(E::A)", "Err(E::B)", "Err(E::C)"], [vec![ok(unit.clone())], ens().into_iter().map(err).collect()].concat()),
+        ("result[enum E, unit]", vec![("Ok(x)", "x"), ("Err(e)", "e")], vec!["Ok(E::A)", "Ok(E::B)", "Ok(E::C)", "Err(Unit)"], [ens().into_iter().map(ok).collect(), vec![err(unit.clone())]].concat()),
+        ("result[bool, enum E]", vec![("Ok(x)", "x"), ("Err(e)", "e")], vec!["Ok(true)", "Ok(false)", "Err(E::A)", "Err(E::B)", "Err(E::C)"], [bools().into_iter().map(ok).collect::<Vec<_>>(), ens().into_iter().map(err).collect()].concat()),
+        ("result[enum E, bool]", vec![("Ok(x)", "x"), ("Err(e)", "e")], vec!["Ok(E::A)", "Ok(E::B)", "Ok(E::C)", "Err(true)", "Err(false)"], [ens().into_iter().map(ok).collect::<Vec<_>>(), bools().into_iter().map(err).collect()].concat()),
+        ("result[bool, bool]", vec![("Ok(x)", "x"), ("Err(e)", "e")], vec!["Ok(true)", "Ok(false)", "Err(true)", "Err(false)"], [bools().into_iter().map(ok).collect::<Vec<_>>(), bools().into_iter().map(err).collect()].concat()),
+    ];
+    for (ty, binds, lits, vals) in &rows {
+        let args: Vec<Vec<Value>> = vals.iter().map(|v| vec![v.clone()]).collect();
+        let nb = binds.len();
+        let nl = lits.len();
+        for bmask in 0u32..(1 << nb) {
+            for lmask in 0u32..(1 << nl) {
+                if bmask == 0 && lmask == 0 {
+                    continue;
+                }
+                let bsel: Vec<(String, Option<&str>)> = (0..nb).filter(|i| bmask >> i & 1 == 1).map(|i| (binds[i].0.to_string(), Some(binds[i].1))).collect();
+                let lsel: Vec<(String, Option<&str>)> = (0..nl).filter(|i| lmask >> i & 1 == 1).map(|i| (lits[i].to_string(), None)).collect();
+                // bindings first (as the first arm) and bindings last
+                let orders = [[bsel.clone(), lsel.clone()].concat(), [lsel.clone(), bsel.clone()].concat()];
+                for (oi, arms) in orders.iter().enumerate() {
+                    if oi == 1 && (bsel.is_empty() || lsel.is_empty()) {
+                        continue;
+                    }
+                    for default in [false, true] {
+                        let mut arms_e = Vec::new();
+                        let mut arms_s = Vec::new();
+                        for (k, (p, bind)) in arms.iter().enumerate() {
+                            let body = match bind {
+                                Some(v) => format!("(if {v} == {v} {{ :{k} }} else {{ :9 }})"),
+                                None => format!("{k}"),
+                            };
+                            arms_e.push(format!("{p} => {body}"));
+                            arms_s.push(format!("{p} => {{ return {body} }}"));
+                        }
+                        if default {
+                            arms_e.push("_ => 7".into());
+                            arms_s.push("_ => { return 7 }".into());
+                        }
+                        out.push(Edge {
+                            extra_decls: "",
+                            text: format!("function f(p {ty}) int {{ return match p {{ {} }} }}", arms_e.join(" ")),
+                            family: "pattern_subsets_expr",
+                            kind: EdgeKind::FunctionArgs(args.clone()),
+                            class_key: None,
+                        });
+                        out.push(Edge {
+                            extra_decls: "",
+                            text: format!("function f(p {ty}) int {{ match p {{ {} }} return 8 }}", arms_s.join(" ")),
+                            family: "pattern_subsets_stmt",
+                            kind: EdgeKind::FunctionArgs(args.clone()),
+                            class_key: None,
+                        });
+                    }
+                }
+            }
+        }
+    }
+}
+
+// ---------------------------------------------------------------------------------------------
 // E7: global let values of every constant-expression kind, used in every way
 
 fn e7_globals(out: &mut Vec<Edge>) {
@@ -1043,6 +1122,7 @@ fn edges(tier: Tier) -> Vec<Edge> {
     e4_scoping(&mut v);
     e5_facts(&mut v);
     e6_binding_arms(&mut v, tier);
+    e6b_pattern_subsets(&mut v);
     e7_globals(&mut v);
     e8_calls(&mut v);
     e9_map_exits(&mut v);
@@ -1124,6 +1204,7 @@ pub fn run(args: &Args) {
     rep.require_nonzero("accepted_actions");
     rep.require_nonzero("accepted_self_referential_bindings");
     rep.require_nonzero("accepted_early_return_callees");
+    rep.require_nonzero("accepted_pattern_subsets_expr");
     rep.finish()
 }
 
